@@ -1,6 +1,8 @@
 package gen
 
 import (
+	"fmt"
+	"regexp"
 	"strings"
 
 	"github.com/gardenbed/emerge/zz_verif/simrt"
@@ -87,5 +89,28 @@ func GenPattern(t *simrt.Tape) (string, string) {
 		}
 		shape += "+edit"
 	}
-	return p, shape
+	return capRanges(p), shape
+}
+
+var wideRangeRE = regexp.MustCompile(`-(\\x[0-9A-F]{4,8}|[^\x00-\x7f\]])`)
+
+// capRanges removes the '-' of a bracket range whose upper end lies far up in the code space: the
+// regex back ends expand a range into one transition per code point, so `[a-\x0010FFFF]` needs
+// more than 11 GB (recorded as a known finding of C14 and probed once per run in a
+// memory-limited child process instead of in every worker).
+func capRanges(p string) string {
+	return wideRangeRE.ReplaceAllStringFunc(p, func(m string) string {
+		hi := 0
+		if strings.HasPrefix(m, `-\x`) {
+			fmt.Sscanf(m[3:], "%X", &hi)
+		} else {
+			for _, r := range m[1:] {
+				hi = int(r)
+			}
+		}
+		if hi > 0x3000 {
+			return m[1:]
+		}
+		return m
+	})
 }
